@@ -12,7 +12,7 @@ P_LIT = NS + "pl"
 P_VAL = NS + "val"
 PREDS = P_IRI + [P_LIT, P_VAL]
 LITS = ["l1", "l2", "l3"]
-INTS = [str(k) for k in range(1, 6)]
+INTS = ["1", "2", "3", "5", "10", "12", "-4"]   # multi-digit and negative: numeric vs lexical comparison differ
 GRAPHS = [NS + "g1", NS + "g2", NS + "g3"]      # g3 is created empty
 VARS = ["a", "b", "c", "d"]
 SCALE = 27720                                    # lcm(1..12): AVG of <= 12 integers is exact
@@ -282,6 +282,75 @@ class Gen:
                 els.insert(r.randint(0, len(els)), {"t": "filter", "e": self.expr(scope)})
         return {"t": "join", "ps": els}
 
+    # ---- systematic operator nesting: every operator inside every other one (both orders arise from the pair list)
+    OPS = ["union", "graphv", "graphc", "sub", "group", "values", "bind", "filter"]
+
+    def wrap(self, op, inner):
+        """A group whose main element is operator `op` applied to / placed next to the group `inner`."""
+        r = self.rng
+        if op == "union":
+            return {"t": "join", "ps": [{"t": "union", "ps": [inner, self.group(0)]}]}
+        if op in ("graphv", "graphc"):
+            gname = r.choice(GRAPHS[:2])
+            saved, self.ctx = self.ctx, gname
+            body = inner if op == "graphc" and r.random() < 0.5 else inner
+            self.ctx = saved
+            return {"t": "join", "ps": [{"t": "graph", "name": V("g") if op == "graphv" else C(gname), "p": body}]}
+        if op == "sub":
+            pv = sorted(self.pvars(inner))
+            q = {"distinct": r.random() < 0.3, "star": not pv or r.random() < 0.3, "proj": [], "from": [], "fromnamed": [], "p": inner, "group": [], "order": [], "limit": -1}
+            if not q["star"]:
+                q["proj"] = [{"k": "VAR", "v": c, "as": c} for c in r.sample(pv, r.randint(1, min(2, len(pv))))]
+            return {"t": "join", "ps": [{"t": "sub", "q": q}]}
+        if op == "group":
+            return {"t": "join", "ps": [inner, self.bgp(1)]}
+        if op == "values":
+            return {"t": "join", "ps": [self.values()] + inner["ps"]}
+        if op == "bind":
+            pv = sorted(self.pvars(inner))
+            if not pv:
+                return inner
+            self.fresh += 1
+            return {"t": "join", "ps": inner["ps"] + [{"t": "bind", "args": [V(r.choice(pv)), C("x")], "v": f"n{self.fresh}"}]}
+        scope = self.pvars(inner)
+        if not scope:
+            return inner
+        ps = list(inner["ps"])
+        ps.insert(r.randint(0, len(ps)), {"t": "filter", "e": self.expr(scope)})
+        return {"t": "join", "ps": ps}
+
+    def nested(self, outer, inner):
+        """select over  [bgp] outer( [bgp] inner( [bgp] ) )  with the graph context followed for data-driven patterns"""
+        r = self.rng
+
+        def ctx_of(op):
+            return r.choice(GRAPHS[:2]) if op in ("graphv", "graphc") else None
+        co, ci = ctx_of(outer), ctx_of(inner)
+        saved = self.ctx
+        if co:
+            self.ctx = co
+        if ci:
+            self.ctx = ci
+        core = {"t": "join", "ps": [self.bgp(r.choice([1, 2]))]}
+        mid = self.wrap(inner, core)
+        if ci and inner in ("graphv", "graphc"):
+            mid["ps"][0]["name"] = V("g") if inner == "graphv" else C(ci)
+        self.ctx = co or saved
+        if r.random() < 0.6:
+            mid = {"t": "join", "ps": [self.bgp(1)] + mid["ps"]}
+        top = self.wrap(outer, mid)
+        if co and outer in ("graphv", "graphc"):
+            top["ps"][0]["name"] = V("g") if outer == "graphv" else C(co)
+        self.ctx = saved
+        if r.random() < 0.5:
+            top = {"t": "join", "ps": [self.bgp(1)] + top["ps"]}
+        pv = sorted(self.pvars(top))
+        q = {"distinct": False, "star": True, "proj": [], "from": [], "fromnamed": [], "p": top, "group": [], "order": [], "limit": -1}
+        if pv and r.random() < 0.5:
+            q["star"] = False
+            q["proj"] = [{"k": "VAR", "v": c, "as": c} for c in r.sample(pv, r.randint(1, min(3, len(pv))))]
+        return q
+
     def select(self, depth, sub=False):
         r = self.rng
         p = self.group(depth, top=not sub)
@@ -440,7 +509,7 @@ def cols_of(q):
 
 def tables(lexicals):
     """kind / num (scaled integer) / rank (code point order) / canon tables over the given lexical forms."""
-    lex = set(lexicals) | {str(k) for k in range(0, 61)}
+    lex = set(lexicals) | {str(k) for k in range(-40, 101)}
     kind, num = {}, {}
     for x in lex:
         k = kind_of(x)
